@@ -354,6 +354,56 @@ def main(pid, tier, seed):
             else:
                 traces.append(lt)
 
+    # ---- the command line is how the options reach run_trainer: trainer.py <options> must write the ruleset that run_trainer
+    # ---- writes when it is handed the same option values (coverage 0 and 1 in every spelling, n-gram size, alphabet size,
+    # ---- count prefixes)
+    n_cli = 0
+    if pid == 'C06':
+        from concurrent.futures import ThreadPoolExecutor
+        from . import session
+        rcopy = core.repo_copy('tcli')
+        cwork = core.scratch('tclifiles')
+        optsets = [(['-c', '0'], dict(coverage=0)), (['-c', '0.0'], dict(coverage=0.0)), (['-c', '1'], dict(coverage=1)),
+                   (['--coverage', '1.0'], dict(coverage=1.0)), (['-c', '0.35'], dict(coverage=0.35)), ([], dict()),
+                   (['-n', '2'], dict(ngram=2)), (['--ngram', '5', '-c', '0.9'], dict(ngram=5, coverage=0.9)),
+                   (['-a', '20'], dict(alphabet_size=20)), (['-c', '1e-9'], dict(coverage=1e-9))]
+        cjobs = []
+        for li in range(2 if tier == 'quick' else 12):
+            pool = rng.choice(list(POOLS))
+            pws = make_list(rng, pool, with_ew=(pool == 'ascii'))
+            if not all(pw.encode('utf-8', 'ignore').decode('utf-8') == pw for pw in pws):
+                continue
+            tf = os.path.join(cwork, 'list%d.txt' % li)
+            with open(tf, 'wb') as f:
+                for pw in pws:
+                    f.write(pw.encode('utf-8') + b'\n')
+            for oi, (args, kw) in enumerate(optsets if tier != 'quick' else optsets[:6] + rng.sample(optsets[6:], 1)):
+                cjobs.append((li, oi, tf, pws, args, kw))
+
+        def run_cli(job):
+            li, oi, tf, pws, args, kw = job
+            name = 'cli_%d_%d' % (li, oi)
+            out, err, code = session.cli(rcopy, 'trainer.py', ['-t', tf, '-r', name, '-e', 'utf-8', '--save_sensitive'] + args, stdin='devnull', timeout=600)
+            return os.path.join(rcopy, 'Rules', name), out.decode('utf-8', 'replace')[-300:]
+        with ThreadPoolExecutor(core.NCPU) as ex:
+            cres = list(ex.map(run_cli, cjobs))
+        for (li, oi, tf, pws, args, kw), (cdir, cout) in zip(cjobs, cres):
+            base = dict(ngram=4, alphabet_size=100, coverage=0.6)
+            base.update(kw)
+            res = train.train(training_file=tf, encoding='utf-8', **base)
+            strip = lambda dg: [(x, y) for x, y in dg if x != 'config.ini']
+            a = strip(digest(res['dir'])) if res['ok'] else [('library training failed', res['error'] or '')]
+            b = strip(digest(cdir)) if os.path.isdir(os.path.join(cdir, 'Grammar')) else [('command line wrote no ruleset', cout)]
+            if not res['ok'] and b and b[0][0] == 'command line wrote no ruleset':
+                continue        # both refuse (e.g. the smoothing's division by zero on a tiny alphabet): nothing to compare
+            I = {}
+            ident = lambda s_: I.setdefault(s_, len(I) + 1)
+            tid += 1
+            n_cli += 1
+            traces.append({'tid': tid, 'kind': 'same', 'a': [[ident(x), ident(y)] for x, y in a], 'b': [[ident(x), ident(y)] for x, y in b]})
+            meta[tid] = {'check': 'trainer.py command line vs run_trainer with the same option values', 'args': args, 'options': base,
+                         'passwords': pws[:8], 'differing': sorted(set(a) ^ set(b))[:6]}
+
     # C03 also needs the guesser's loader to give every alpha variable of a base structure its own case-mask variable
     # (Loader.tla InsLoop = InsertC): every file of the Loader model space through the real default load
     ins = None
@@ -396,7 +446,7 @@ def main(pid, tier, seed):
            'rule': 'C06: one trace = one saved list of one real training against the tallies captured from the trainer memory, the structure '
                    'list coverage clauses, or two trainings of the same input; C03: one trace = one real training + the real guesser run to '
                    'exhaustion with --skip_brute; non-trivial = list with more than one record',
-           'trainings': n_train, 'trainings_not_completed_with_tiny_alphabet_retried_with_default': n_alpha_retry, 'loader_insertion': ins, 'composition': comp, 'trace_validation': st, 'exhaustive': False, 'binding_selftest': selftest,
+           'trainings': n_train, 'command_line_trainings_compared_with_run_trainer': n_cli, 'trainings_not_completed_with_tiny_alphabet_retried_with_default': n_alpha_retry, 'loader_insertion': ins, 'composition': comp, 'trace_validation': st, 'exhaustive': False, 'binding_selftest': selftest,
            'known_findings_reproduced': n_known, 'violation_histogram': verdict.histogram()}
     core.write_evidence(pid, tier, seed, 'model_checking', cov, time.time() - t0, violations=n_viol,
                         assumptions=['TLC', 'written probability converted to an integer count c = round(p*total) and p == c/total checked in binary64 '
